@@ -5,18 +5,10 @@ from ..common import dec_val, run_go, canon
 
 MODULE = "Genql.Properties.C03"
 LEAN_TARGETS = [MODULE]
-THEOREMS = [
-    "Genql.C03.groups_eq_spec",
-    "Genql.C03.groups_partition",
-    "Genql.C03.groups_nodup_keys",
-    "Genql.C03.same_group_iff",
-    "Genql.C03.count_conservation",
-    "Genql.C03.groups_first_appearance",
-    "Genql.C03.sum_ignores_null",
-    "Genql.C03.minmax_spec",
-    "Genql.C03.avg_is_sum_div_count",
-    "Genql.C03.whole_table_one_row",
-]
+THEOREMS = ["Genql.C03." + t for t in [
+    "groupLoop_pure", "groups_eq_spec", "groups_first_appearance", "groups_nodup_keys", "mem_group_iff", "same_group_iff",
+    "groups_partition", "count_conservation", "sum_ignores_null", "minmax_spec", "avg_is_sum_div_count", "count_spec",
+    "whole_table_one_row"]]
 TRUSTED = ["IEEE-754 summation order is the source order in both model and Go (left fold)", "sqlparser"]
 RULE = ("random tables (0-14 rows; 1-3 grouping columns with NULL / missing keys, single-group and all-distinct shapes) x "
         "select lists mixing grouping columns, *, COUNT/SUM/MIN/MAX/AVG (same function on different columns) x WHERE x HAVING; "
